@@ -293,4 +293,73 @@ theorem C02_mutator_skeleton :
     (skelOf regFile "register_unchecked_impl").take 2 = ["data.write", "clone"] ∧
     (skelOf regFile "register_unchecked_impl").getLast? = some "store" := by decide
 
+
+/-! ### the publications are steps of the *sequential* registry model (L5, the spec refined in C05) -/
+
+/-- result values of the two models -/
+def retMatches : Registry.Out → Ret → Prop
+  | .id sg i, .id sg' i' => sg = sg' ∧ i = i'
+  | .bool b, .bool b' => b = b'
+  | _, _ => False
+
+/-- **C02.publication_is_L5_step** — what a publication makes of the current contents is what one
+operation of the sequential model `Registry.step` (the model proved to refine the simple
+specification in C05) makes of a state with those contents: the concurrent registry is
+linearizable *to that specification*, with the `data.swap` as linearization point. -/
+theorem C02_publication_is_L5_step {env : Env} {c v : SigData} {res : Ret} (hp : Pub env c v res) :
+    ∃ (s5 : Registry.State) (op : Registry.Op), s5.signals = c.signals ∧ s5.nextId = c.nextId ∧
+      (Registry.step env s5 op).1.signals = v.signals ∧ (Registry.step env s5 op).1.nextId = v.nextId ∧
+      retMatches (Registry.step env s5 op).2 res := by
+  rcases hp with ⟨op, hp⟩ | ⟨chk, sg, tag, prev, hp, hq, hr, rfl⟩
+  · cases op with
+    | register chk sg tag =>
+      refine ⟨⟨c.signals, c.nextId, none, []⟩, .registerUnchecked sg tag, rfl, rfl, ?_⟩
+      simp only [plan] at hp
+      cases hl : lookup sg c.signals with
+      | none => simp [hl] at hp
+      | some slot =>
+        simp only [hl] at hp
+        split at hp
+        · cases hp
+        · rename_i hb
+          simp only [Prod.mk.injEq, Option.some.injEq] at hp
+          obtain ⟨rfl, rfl, _⟩ := hp
+          simp [Registry.step, Registry.registerUnchecked, hl, hb, retMatches]
+    | unregister sg id =>
+      refine ⟨⟨c.signals, c.nextId, none, []⟩, .unregister sg id, rfl, rfl, ?_⟩
+      simp only [plan] at hp
+      cases hl : lookup sg c.signals with
+      | none => simp [hl] at hp
+      | some slot =>
+        simp only [hl] at hp
+        split at hp
+        · rename_i hb
+          simp only [Prod.mk.injEq, Option.some.injEq] at hp
+          obtain ⟨rfl, rfl, _⟩ := hp
+          simp [Registry.step, Registry.unregister, hl, hb, retMatches]
+        · cases hp
+    | unregisterSignal sg =>
+      refine ⟨⟨c.signals, c.nextId, none, []⟩, .unregisterSignal sg, rfl, rfl, ?_⟩
+      simp only [plan] at hp
+      cases hl : lookup sg c.signals with
+      | none => simp [hl] at hp
+      | some slot =>
+        simp only [hl] at hp
+        split at hp
+        · cases hp
+        · rename_i hb
+          simp only [Prod.mk.injEq, Option.some.injEq] at hp
+          obtain ⟨rfl, rfl, _⟩ := hp
+          simp [Registry.step, Registry.unregisterSignal, hl, hb, retMatches]
+    | deliver sg => simp [plan] at hp
+  · -- a first registration: the sequential model with `prev` as the signal's disposition
+    refine ⟨⟨c.signals, c.nextId, none, [(sg, prev)]⟩, .registerUnchecked sg tag, rfl, rfl, ?_⟩
+    simp only [plan] at hp
+    cases hl : lookup sg c.signals with
+    | some slot => simp only [hl] at hp; split at hp <;> simp at hp
+    | none =>
+      simp only [hl, Prod.mk.injEq] at hp
+      obtain ⟨_, rfl, _⟩ := hp
+      simp [Registry.step, Registry.registerUnchecked, hl, hq, hr, Registry.dispOf, Registry.lookup, retMatches]
+
 end SigHook.RegConc
